@@ -130,4 +130,24 @@ MUTATIONS = [
      'desc': 'ROADM PDL added linearly',
      'edits': [('gnpy/core/elements.py', "        spectral_info.pdl = sqrt(spectral_info.pdl ** 2 + pdl_impairment ** 2)",
                 "        spectral_info.pdl = spectral_info.pdl + pdl_impairment")]},
+    {'id': 'c06-degree-psd-ref-baud', 'props': ['C06'], 'tests': 'tests/test_equalization.py',
+     'desc': 'per-degree PSD target computed with the reference carrier baud rate instead of each channel baud rate',
+     'edits': [('gnpy/core/elements.py', "            return psd2powerdbm(self.per_degree_pch_psd[degree], spectral_info.baud_rate)",
+                "            return psd2powerdbm(self.per_degree_pch_psd[degree], self.ref_carrier.baud_rate)")]},
+    {'id': 'c06-correction-before-maxloss', 'props': ['C06'], 'tests': 'tests/test_equalization.py tests/test_roadm_restrictions.py',
+     'desc': 'below-target correction computed on the power before the ROADM path loss',
+     'edits': [('gnpy/core/elements.py', "        correction = calculate_absolute_min_or_zero(net_input_pch_dbm - target_power_per_channel)",
+                "        correction = calculate_absolute_min_or_zero(input_pch_dbm - target_power_per_channel)")]},
+    {'id': 'c06-degree-psw-uses-baud', 'props': ['C06'], 'tests': 'tests/test_equalization.py',
+     'desc': 'per-degree PSW target multiplied by the baud rate instead of the slot width',
+     'edits': [('gnpy/core/elements.py', "            return psd2powerdbm(self.per_degree_pch_psw[degree], spectral_info.slot_width)",
+                "            return psd2powerdbm(self.per_degree_pch_psw[degree], spectral_info.baud_rate)")]},
+    {'id': 'c06-topology-policy-keeps-default', 'props': ['C06'], 'tests': 'tests/test_equalization.py',
+     'desc': 'a topology-level policy no longer removes the library default of another type when it is PSW',
+     'edits': [('gnpy/tools/json_io.py', "        return {k: v for k, v in extra_params.items() if k not in equalization_types}",
+                "        return {k: v for k, v in extra_params.items() if k not in equalization_types[:2]}")]},
+    {'id': 'c06-offset-sign', 'props': ['C06'], 'tests': 'tests/test_equalization.py',
+     'desc': 'per-channel offset ignored when negative',
+     'edits': [('gnpy/core/elements.py', "        target_power_per_channel = per_degree_pch + spectral_info.delta_pdb_per_channel",
+                "        target_power_per_channel = per_degree_pch + abs(spectral_info.delta_pdb_per_channel)")]},
 ]
